@@ -281,7 +281,27 @@ def run(p: Program, rep: Report, tier: str) -> None:
         ev_raised = [c for c in ast.walk(ast.Module(body=[s for t in fins for s in t.finalbody], type_ignores=[])) if isinstance(c, ast.Call) and isinstance(c.func, ast.Attribute)
                      and c.func.attr == "set" and isinstance(c.func.value, ast.Name) and c.func.value.id in ev_tested]
         relay_tests = [ast.unparse(n.test) for n in ast.walk(push.node) if isinstance(n, ast.While) and not (isinstance(n.test, ast.Constant) and n.test.value is True)]
-        if flags or ev_raised:
+        # the flag handed to a stepping helper as a predicate: `for item in _steps_until(iterable, lambda: should_stop)` (the helper tests it
+        # before every step - its loop is checked below as the relay loop)
+        raised_names = {n.targets[0].id for n in ast.walk(ast.Module(body=[s_ for t in fins for s_ in t.finalbody], type_ignores=[])) if isinstance(n, ast.Assign) and len(n.targets) == 1
+                        and isinstance(n.targets[0], ast.Name) and isinstance(n.value, ast.Constant) and n.value.value is True}
+        via_predicate = False
+        for lp_ in ast.walk(push.node):
+            if isinstance(lp_, (ast.For, ast.AsyncFor)) and isinstance(lp_.iter, ast.Call):
+                for a_ in lp_.iter.args:
+                    if isinstance(a_, ast.Lambda) and isinstance(a_.body, ast.Name) and a_.body.id in raised_names:
+                        try:
+                            stepper = p.resolve_call(push, lp_.iter)
+                        except Exception:
+                            stepper = None
+                        if isinstance(stepper, FuncInfo) and stepper.is_generator():
+                            pidx = lp_.iter.args.index(a_)
+                            pname = stepper.params[pidx] if pidx < len(stepper.params) else None
+                            # the helper calls the predicate in the test of its stepping loop (before each step)
+                            if pname and any(isinstance(w_, ast.While) and any(isinstance(c_, ast.Call) and isinstance(c_.func, ast.Name) and c_.func.id == pname for c_ in ast.walk(w_.test)) for w_ in ast.walk(stepper.node)):
+                                via_predicate = True
+                                rep.analysed(stepper.fq)
+        if flags or ev_raised or via_predicate:
             rep.ok("R6.3", f"{side}: the consumer raises the stop flag in its finally and the relay loop tests it before every step")
         elif relay_tests and not tested and not ev_tested and not events_ and not nonlocals:
             rep.undecide("R6.3", f"{side}: the relay loop tests `{relay_tests[0][:50]}`, which is neither a nonlocal flag nor an Event of the consumer: how the relay is asked to stop is not recognised")
@@ -292,6 +312,20 @@ def run(p: Program, rep: Report, tier: str) -> None:
         from ..common import parents as _parents
         loops_with_put = {id(next((q_ for q_ in _parents(c) if isinstance(q_, (ast.While, ast.For, ast.AsyncFor))), None)) for c in item_puts}
         pulls = [c for c in calls_in(push, deep=True) if (isinstance(c.func, ast.Name) and c.func.id in ("next", "anext")) or (isinstance(c.func, ast.Attribute) and c.func.attr in ("__next__", "__anext__"))]
+        if not pulls:
+            # the pull may sit in a stepping generator the relay loop iterates (`for item in _steps(iterable, ...): q.put(item)`): its
+            # single next() is the relay's pull, and the for loop hands on exactly what it yields
+            for lp_ in ast.walk(push.node):
+                if isinstance(lp_, (ast.For, ast.AsyncFor)) and isinstance(lp_.iter, ast.Call):
+                    try:
+                        g_ = p.resolve_call(push, lp_.iter)
+                    except Exception:
+                        g_ = None
+                    if isinstance(g_, FuncInfo) and g_.is_generator():
+                        gp = [c for c in calls_in(g_, deep=True) if (isinstance(c.func, ast.Name) and c.func.id in ("next", "anext")) or (isinstance(c.func, ast.Attribute) and c.func.attr in ("__next__", "__anext__"))]
+                        gy = [n for n in ast.walk(g_.node) if isinstance(n, ast.Yield)]
+                        if len(gp) == 1 and len(gy) == 1:
+                            pulls = gp
         if len(loops_with_put) == 1 and len(item_puts) == 1 and len(pulls) == 1:
             rep.ok("R6.4", f"{side}: one producer loop with one put per item")
         else:
